@@ -18,6 +18,9 @@ def optNat (o : Option Nat) : R Nat := match o with | some n => .ok n | none => 
 /-- a str method on an `Optional[str]` that is None: AttributeError -/
 def optTok (o : Option Token) : R Token := match o with | some t => .ok t | none => .error .AttributeError
 
+/-- a bool flag that is still None where a bool is needed -/
+def optBool (o : Option Bool) : R Bool := match o with | some b => .ok b | none => .error .TypeError
+
 def truthyOptNat (o : Option Nat) : Bool := match o with | some n => n != 0 | none => false
 def truthyOptInt (o : Option Int) : Bool := match o with | some n => n != 0 | none => false
 
